@@ -7,5 +7,5 @@ CONSTANTS
   MaxReq = 17
   Keys = {"k1", "k2"}
   Shipped = {}
-INVARIANTS TypeOK StreamLaw BackendsAgree PosRefines LanesStaggered
+INVARIANTS TypeOK StreamLaw SplitIndependent BackendsAgree PosRefines LanesStaggered
 CHECK_DEADLOCK FALSE
